@@ -120,51 +120,86 @@ def gen_fac_constants():
     nat("CAM_POS_THRESHOLD_MM", _scaled(lits[2][1], 1000, "position threshold"))
     nat("CAM_SPEED_THRESHOLD_MMS", _scaled(lits[3][1], 1000, "speed threshold"))
 
-    # report -> DE mapping literals (CAM, VAM, DENM event position)
+    # report -> DE mapping literals (CAM, VAM, DENM event position).  Comparison operators are emitted as codes
+    # (OPS) so that the model interprets whatever guard the source has.
+    OPS = {"Lt": 0, "LtE": 1, "Gt": 2, "GtE": 3}
+    body += "/-- comparison operator codes: 0 `<`, 1 `<=`, 2 `>`, 3 `>=` -/\n"
+
+    def guard(name, g):
+        nat(f"{name}_OP", OPS[g[0]])
+        integer(f"{name}_GUARD", g[1])
+
     for tag, path, cls in (("CAM", CAM_TM, "CooperativeAwarenessMessage"), ("VAM", VAM_TM, "VAMMessage")):
         t = ast.parse(src(path))
         fb = _func(t, cls, "fullfill_basic_container_with_tpv_data")
-        guards = _cmp_literals(fb)          # [('Lt', lo_guard), ('Gt', hi_guard)]
+        guards = _cmp_literals(fb)          # [lower guard, upper guard]
         assigned = _assigned_ints(fb)       # [neg code, pos code]
-        if [o for o, _ in guards] != ["Lt", "Gt"] or len(assigned) != 2:
+        if len(guards) != 2 or len(assigned) != 2 or any(o not in OPS for o, _ in guards):
             raise ValueError(f"{cls}.fullfill_basic_container_with_tpv_data: unexpected shape {guards} {assigned}")
-        integer(f"{tag}_ALT_LO_GUARD", guards[0][1])
-        integer(f"{tag}_ALT_HI_GUARD", guards[1][1])
+        guard(f"{tag}_ALT_LO", guards[0])
+        guard(f"{tag}_ALT_HI", guards[1])
         integer(f"{tag}_ALT_LO_CODE", assigned[0])
         integer(f"{tag}_ALT_HI_CODE", assigned[1])
-        scales = _mult_literals(fb)
-        if scales != [100, 10000000]:
-            raise ValueError(f"{cls}: unexpected scale factors {scales}")
+        if _mult_literals(fb) != [100, 10000000]:
+            raise ValueError(f"{cls}: unexpected scale factors {_mult_literals(fb)}")
         fh = _func(t, cls, "fullfill_high_frequency_container_with_tpv_data")
         g = _cmp_literals(fh)
         a = _assigned_ints(fh)
-        if [o for o, _ in g] != ["Gt"] or len(a) != 1 or _mult_literals(fh) != [10, 100]:
+        if len(g) != 1 or g[0][0] not in OPS or len(a) != 1 or _mult_literals(fh) != [10, 100]:
             raise ValueError(f"{cls}.fullfill_high_frequency_container_with_tpv_data: unexpected shape {g} {a}")
-        integer(f"{tag}_SPEED_GUARD", g[0][1])
+        guard(f"{tag}_SPEED", g[0])
         integer(f"{tag}_SPEED_CODE", a[0])
+        mods = sorted({n.right.value for n in ast.walk(fh) if isinstance(n, ast.BinOp) and isinstance(n.op, ast.Mod)
+                       and isinstance(n.right, ast.Constant)})
+        nat(f"{tag}_HEADING_MOD", mods[0] if len(mods) == 1 else 0)      # 0 = heading value not reduced
+        nat(f"{tag}_ELLIPSE_OWN", 1 if any(isinstance(f, ast.FunctionDef) and f.name == "create_position_confidence"
+                                            for c in t.body if isinstance(c, ast.ClassDef) and c.name == cls for f in c.body) else 0)
     t = ast.parse(src(CAM_TM))
     fhc = _func(t, "CooperativeAwarenessMessage", "create_heading_confidence")
     g = _cmp_literals(fhc)
     a = _assigned_ints(fhc)
-    if [o for o, _ in g] not in (["LtE"], ["LtE", "Lt"], ["Lt", "LtE"]) and len(g) > 2:
-        raise ValueError(f"create_heading_confidence: unexpected shape {g}")
-    body += "/-- literal guards of create_heading_confidence, (operator, value*10) in source order -/\n"
-    body += "def HEADING_CONF_GUARDS : List (String × Int) := [" + ", ".join(
-        f"(\"{o}\", {_scaled(v, 10, 'epd guard')})" for o, v in g) + "]\n"
-    body += "def HEADING_CONF_ASSIGNED : List Int := [" + ", ".join(str(x) for x in a) + "]\n"
-    # altitude-confidence ladder: (threshold in cm, name) read from the dict literal
+    if len(g) != 1 or g[0][0] not in OPS or a != [126]:
+        raise ValueError(f"create_heading_confidence: unexpected shape {g} {a}")
+    nat("HEADING_CONF_OP", OPS[g[0][0]])
+    integer("HEADING_CONF_GUARD_X10", _scaled(g[0][1], 10, "epd guard"))
+    integer("HEADING_CONF_OUT_OF_RANGE", a[0])
+    floors = [n.args[0].value for n in ast.walk(fhc) if isinstance(n, ast.Call) and getattr(n.func, "id", "") == "max"
+              and n.args and isinstance(n.args[0], ast.Constant)]
+    integer("HEADING_CONF_FLOOR", floors[0] if len(floors) == 1 else 0)   # 0 = no lower clamp
+    # semi-axis length: `create_semi_axis_length` (absent in the unrepaired code -> no clamp)
+    try:
+        fsa = _func(t, "CooperativeAwarenessMessage", "create_semi_axis_length")
+        g = _cmp_literals(fsa)
+        rets = sorted(n.value.value for n in ast.walk(fsa) if isinstance(n, ast.Return) and isinstance(n.value, ast.Constant))
+        floors = [n.args[0].value for n in ast.walk(fsa) if isinstance(n, ast.Call) and getattr(n.func, "id", "") == "max"
+                  and n.args and isinstance(n.args[0], ast.Constant)]
+        if len(g) != 1 or g[0][0] not in OPS or len(rets) != 1 or len(floors) != 1:
+            raise ValueError(f"create_semi_axis_length: unexpected shape {g} {rets} {floors}")
+        nat("SEMI_AXIS_CLAMPED", 1)
+        guard("SEMI_AXIS", g[0])
+        integer("SEMI_AXIS_CODE", rets[0])
+        integer("SEMI_AXIS_FLOOR", floors[0])
+    except ValueError as e:
+        if "not found" not in str(e):
+            raise
+        nat("SEMI_AXIS_CLAMPED", 0)
+        nat("SEMI_AXIS_OP", 2)
+        integer("SEMI_AXIS_GUARD", 0)
+        integer("SEMI_AXIS_CODE", 0)
+        integer("SEMI_AXIS_FLOOR", 0)
+    # altitude-confidence ladder: (exact value of the double key, name) read from the dict literal
     ladder = re.findall(r"^\s*([0-9.]+):\s*\"(alt-[0-9-]+)\"", src(CAM_TM).split("def create_altitude_confidence(self, epv: float)")[-1], re.M)
-    body += "def ALT_CONF_LADDER_CM : List (Nat × String) := [" + ", ".join(
-        f"({_scaled(k, 100, 'epv step')}, \"{n}\")" for k, n in ladder) + "]\n"
+    body += "def ALT_CONF_LADDER : List (Rat × String) := [" + ", ".join(
+        f"({gen_lean.lean_rat(float(k))}, \"{n}\")" for k, n in ladder) + "]\n"
     # DENM event position (EmergencyVehicleApproachingService.trigger_denm_sending)
     t = ast.parse(src(EVA))
     f = _func(t, "EmergencyVehicleApproachingService", "trigger_denm_sending")
     g = _cmp_literals(f)
     a = _assigned_ints(f)
-    if [o for o, _ in g] != ["Lt", "Gt"] or len(a) != 2:
+    if len(g) != 2 or len(a) != 2 or any(o not in OPS for o, _ in g):
         raise ValueError(f"trigger_denm_sending: unexpected shape {g} {a}")
-    integer("DENM_ALT_LO_GUARD", g[0][1])
-    integer("DENM_ALT_HI_GUARD", g[1][1])
+    guard("DENM_ALT_LO", g[0])
+    guard("DENM_ALT_HI", g[1])
     integer("DENM_ALT_LO_CODE", a[0])
     integer("DENM_ALT_HI_CODE", a[1])
     body += "end Generated.Fac\n"
